@@ -427,6 +427,24 @@ MUTANTS = [
            expect_rule="no-recursion/closure"),
     Mutant("cell-read-before-registration", D, "            result.addBoth(_gotResultInlineCallbacks, waiting, gen, status, context)  # type: ignore[attr-defined]\n            if waiting[0]:",
            "            stillWaiting = waiting[0]\n            result.addBoth(_gotResultInlineCallbacks, waiting, gen, status, context)  # type: ignore[attr-defined]\n            if stillWaiting:", expect_rule="inline/"),
+    Mutant("cursor-re-pointed-parent-forgotten", D, "        chain: List[Deferred[Any]] = [self]\n\n        while chain:\n            current = chain[-1]\n", "        current = self\n        parents: List[Deferred[Any]] = []\n\n        while True:\n",
+           more=[(D, "            finished = True\n            current._chainedTo = None\n", "            current._chainedTo = None\n"),
+                 (D, "                    chain.append(chainee)\n                    # Delay cleaning this Deferred and popping it from the chain\n                    # until after we've dealt with chainee.\n                    finished = False\n                    break\n", "                    current = chainee\n                    if current.paused:\n                        return\n                    current._chainedTo = None\n                    continue\n"),
+                 (D, "            if finished:\n                # As much of the callback chain", "            if True:\n                # As much of the callback chain"),
+                 (D, "                chain.pop()\n", "                if not parents:\n                    return\n                current = parents.pop()\n")], expect_rule="iterative/handover-uses-chain-stack"),
+    Mutant("cursor-shape-hand-over-by-nested-call", D, "        chain: List[Deferred[Any]] = [self]\n\n        while chain:\n            current = chain[-1]\n", "        current = self\n        parents: List[Deferred[Any]] = []\n\n        while True:\n",
+           more=[(D, "            finished = True\n            current._chainedTo = None\n", "            current._chainedTo = None\n"),
+                 (D, "                    chain.append(chainee)\n                    # Delay cleaning this Deferred and popping it from the chain\n                    # until after we've dealt with chainee.\n                    finished = False\n                    break\n", "                    chainee._runCallbacks()\n                    continue\n"),
+                 (D, "            if finished:\n                # As much of the callback chain", "            if True:\n                # As much of the callback chain"),
+                 (D, "                chain.pop()\n", "                if not parents:\n                    return\n                current = parents.pop()\n")], expect_rule="no-re"),
+    Mutant("marker-cell-re-armed-with-the-wrong-marker", D, "    waiting: List[Any] = [True, None]\n\n    stopIteration: bool = False\n", "    waiting: List[Any] = [_HERE]\n\n    stopIteration: bool = False\n",
+           more=[(D, "    if waiting[0]:\n        waiting[0] = False\n        waiting[1] = r\n    else:\n        _inlineCallbacks(r, gen, status, context)\n",
+                  "    if waiting[0] is _GONE:\n        _inlineCallbacks(r, gen, status, context)\n        return\n    waiting[0] = r\n"),
+                 (D, "            if waiting[0]:\n                # Haven't called back yet, set flag so that we get reinvoked\n                # and return from the loop\n                waiting[0] = False\n                status.waitingOn",
+                  "            if waiting[0] is _HERE:\n                waiting[0] = _GONE\n                status.waitingOn"),
+                 (D, "            result = waiting[1]\n", "            result = waiting[0]\n"),
+                 (D, "            # branch above would have been taken.\n\n            waiting[0] = True\n            waiting[1] = None\n", "            # branch above would have been taken.\n\n            waiting[0] = _GONE\n"),
+                 (D, "def _gotResultInlineCallbacks(\n", "_HERE = object()\n_GONE = object()\n\n\ndef _gotResultInlineCallbacks(\n")], expect_rule="inline/"),
 ]
 SILENT = [
     Silent("rename-helper-params", D, "    if waiting[0]:\n        waiting[0] = False\n        waiting[1] = r\n    else:\n        _inlineCallbacks(r, gen, status, context)\n",
@@ -475,4 +493,17 @@ SILENT = [
                  (D, "            result = waiting[1]\n", "            result = waiting.value\n"),
                  (D, "            # branch above would have been taken.\n\n            waiting[0] = True\n            waiting[1] = None\n", "            # branch above would have been taken.\n\n            waiting.armed = True\n            waiting.value = None\n"),
                  (D, "def _gotResultInlineCallbacks(\n", "class _Box:\n    __slots__ = (\"armed\", \"value\")\n\n    def __init__(self):\n        self.armed = True\n        self.value = None\n\n\ndef _gotResultInlineCallbacks(\n")]),
+    Silent("cursor-re-pointed-inside-the-inner-loop", D, "        chain: List[Deferred[Any]] = [self]\n\n        while chain:\n            current = chain[-1]\n", "        current = self\n        parents: List[Deferred[Any]] = []\n\n        while True:\n",
+           more=[(D, "            finished = True\n            current._chainedTo = None\n", "            current._chainedTo = None\n"),
+                 (D, "                    chain.append(chainee)\n                    # Delay cleaning this Deferred and popping it from the chain\n                    # until after we've dealt with chainee.\n                    finished = False\n                    break\n", "                    parents.append(current)\n                    current = chainee\n                    if current.paused:\n                        return\n                    current._chainedTo = None\n                    continue\n"),
+                 (D, "            if finished:\n                # As much of the callback chain", "            if True:\n                # As much of the callback chain"),
+                 (D, "                chain.pop()\n", "                if not parents:\n                    return\n                current = parents.pop()\n")]),
+    Silent("one-slot-cell-with-private-markers", D, "    waiting: List[Any] = [True, None]\n\n    stopIteration: bool = False\n", "    waiting: List[Any] = [_HERE]\n\n    stopIteration: bool = False\n",
+           more=[(D, "    if waiting[0]:\n        waiting[0] = False\n        waiting[1] = r\n    else:\n        _inlineCallbacks(r, gen, status, context)\n",
+                  "    if waiting[0] is _GONE:\n        _inlineCallbacks(r, gen, status, context)\n        return\n    waiting[0] = r\n"),
+                 (D, "            if waiting[0]:\n                # Haven't called back yet, set flag so that we get reinvoked\n                # and return from the loop\n                waiting[0] = False\n                status.waitingOn",
+                  "            if waiting[0] is _HERE:\n                waiting[0] = _GONE\n                status.waitingOn"),
+                 (D, "            result = waiting[1]\n", "            result = waiting[0]\n"),
+                 (D, "            # branch above would have been taken.\n\n            waiting[0] = True\n            waiting[1] = None\n", "            # branch above would have been taken.\n\n            waiting[0] = _HERE\n"),
+                 (D, "def _gotResultInlineCallbacks(\n", "_HERE = object()\n_GONE = object()\n\n\ndef _gotResultInlineCallbacks(\n")]),
 ]
